@@ -12,8 +12,9 @@
 (*   Adjugate      x * num = num * x = den * 1      (so num/den is a two-sided *)
 (*                 inverse whenever den # 0)                                   *)
 (*   DenIsScalarOf den = scalar part of x * num  (hitzer: x.sp(num).e)         *)
-(*   Terminates    the Shirokov recursion reaches a scalar X_i for some        *)
-(*                 i <= N = 2^ceil(d/2)   (Cayley-Hamilton)                     *)
+(*   Terminates    X_N is a scalar for N = 2^ceil(d/2)  (Cayley-Hamilton), so   *)
+(*                 the recursion stops at a non-zero scalar or falls through    *)
+(*                 with (0, 0)                                                    *)
 (*   ExactDivision every  N * s / i  of the recursion is an exact integer       *)
 (*   NoInverseIffDenZero   den = 0  =>  x is a zero divisor (x * num = 0 with   *)
 (*                 num # 0, or x has no inverse for another reason): the model   *)
@@ -76,17 +77,27 @@ ShRun(c, x) ==
                  s == X[0]
              IN  Append(prev, [X |-> X, c |-> IF s = 0 THEN 0 ELSE (N * s) \div i, exact |-> (N * s) % i = 0])
   IN  R[N]
+\* The loop breaks at the first X_i whose stored blades are exactly (0,): a NON-ZERO scalar (the zero multivector stores no
+\* blade, its grades are () and the loop goes on; then every later X_j is zero as well).  Without a break the code falls
+\* through with i = N:  adj = X_N - c_N,  den = <X_N>_0  (= 0, 0 when X_N = 0).
+IsNZScalarMV(x) == MI!Supp(x) = {0}
 ShStop(c, x) == LET r == ShRun(c, x) IN
-                IF \E i \in DOMAIN r : IsScalarMV(r[i].X)
-                THEN CHOOSE i \in DOMAIN r : IsScalarMV(r[i].X) /\ \A j \in 1 .. i - 1 : ~IsScalarMV(r[j].X)
+                IF \E i \in DOMAIN r : IsNZScalarMV(r[i].X)
+                THEN CHOOSE i \in DOMAIN r : IsNZScalarMV(r[i].X) /\ \A j \in 1 .. i - 1 : ~IsNZScalarMV(r[j].X)
                 ELSE 0
 ShPair(c, x, i) == LET r == ShRun(c, x) IN
                    [num |-> IF i = 1 THEN MI!MVOne(c.d) ELSE MI!Sub(r[i - 1].X, ScalarOf(c.d, r[i - 1].c)), den |-> r[i].X[0]]
-ShirokovNum(c, x) == ShPair(c, x, ShStop(c, x)).num
-ShirokovDen(c, x) == ShPair(c, x, ShStop(c, x)).den
-\* any stopping index at which X_i is a scalar gives a valid pair (the real loop may stop later than the model)
+ShFallThrough(c, x) == LET r == ShRun(c, x) N == ShN(c.d) IN
+                       [num |-> MI!Sub(r[N].X, ScalarOf(c.d, r[N].c)), den |-> r[N].X[0]]
+ShirokovNum(c, x) == IF ShStop(c, x) = 0 THEN ShFallThrough(c, x).num ELSE ShPair(c, x, ShStop(c, x)).num
+ShirokovDen(c, x) == IF ShStop(c, x) = 0 THEN ShFallThrough(c, x).den ELSE ShPair(c, x, ShStop(c, x)).den
+\* The real generator decides "non-zero scalar" on SYMBOLIC coefficients (for all values of a key pattern at once), the model
+\* at one integer point: a structurally non-zero scalar may vanish at the point and a structurally non-scalar X_i may be a
+\* scalar there.  Every index at which X_i is a scalar at the point therefore gives an admissible pair, and so does the
+\* fall-through when X_N vanishes.
 ValidShirokovPair(c, x, num, den) ==
-  \E i \in 1 .. ShN(c.d) : IsScalarMV(ShRun(c, x)[i].X) /\ ShPair(c, x, i).num = num /\ ShPair(c, x, i).den = den
+  \/ \E i \in 1 .. ShN(c.d) : IsScalarMV(ShRun(c, x)[i].X) /\ ShPair(c, x, i).num = num /\ ShPair(c, x, i).den = den
+  \/ MI!IsZeroMV(ShRun(c, x)[ShN(c.d)].X) /\ ShFallThrough(c, x).num = num /\ ShFallThrough(c, x).den = den
 
 \* codegen_inv: the dispatch
 InvNum(c, x) == IF c.d < 6 THEN HitzerNum(c, x) ELSE ShirokovNum(c, x)
@@ -98,8 +109,8 @@ InvDen(c, x) == IF c.d < 6 THEN HitzerDen(c, x) ELSE ShirokovDen(c, x)
 Adjugate(c, x, num, den) == /\ MI!SameElement(G(c, x, num), ScalarOf(c.d, den))
                             /\ MI!SameElement(G(c, num, x), ScalarOf(c.d, den))
 HitzerOK(c, x) == c.d <= 5 => Adjugate(c, x, HitzerNum(c, x), HitzerDen(c, x))
-ShirokovTerminates(c, x) == ShStop(c, x) # 0
-ShirokovExact(c, x) == \A i \in 1 .. ShStop(c, x) : ShRun(c, x)[i].exact
+ShirokovTerminates(c, x) == IsScalarMV(ShRun(c, x)[ShN(c.d)].X)          \* Cayley-Hamilton: X_N is a scalar
+ShirokovExact(c, x) == \A i \in 1 .. ShN(c.d) : ShRun(c, x)[i].exact
 ShirokovOK(c, x) == ShirokovTerminates(c, x) /\ ShirokovExact(c, x) /\ Adjugate(c, x, ShirokovNum(c, x), ShirokovDen(c, x))
 \* both generators agree on WHICH elements are invertible, and on the inverse (cross-multiplied)
 GeneratorsAgree(c, x) ==
